@@ -242,6 +242,19 @@ def _run_worker(inputs, workdir, obs, nshards=None, tag="cases", fresh=False):
   return files, formulas
 
 
+def _regroup(files, n, workdir):
+  """The recorded cases of the worker shards, unchanged, in n files (one judge JVM per file)."""
+  out = []
+  for k in range(n):
+    cases = []
+    for f in files[k::n]:
+      cases.extend(json.load(open(f)))
+    p = os.path.join(workdir, "judge-%02d.json" % k)
+    json.dump(cases, open(p, "w"))
+    out.append(p)
+  return out
+
+
 def _confirm(viol, workdir, obs):
   """Histories share an engine (T and O are re-loaded in between): run every violating history again
   in an engine of its own and let TLC judge that run; say whether the violation is still there."""
@@ -354,10 +367,12 @@ def run(ctx):
       seen.add(k)
       inputs.append(e)
   ctx.log("TLC enumerated %d histories (%d states) in %.1fs" % (len(inputs), model["distinct"], model["wall"]))
-  rnd = random_inputs(ctx.seed, 250 if ctx.quick else 2500)
+  rnd = random_inputs(ctx.seed, 150 if ctx.quick else 2500)
   todo = inputs + rnd
   random.Random(14).shuffle(todo)          # spread the long histories evenly
   files, formulas = _run_worker(todo, ctx.workdir, obs, nshards=16)
+  if ctx.quick:      # a JVM takes longer to start than to judge a sixteenth of the quick cases
+    files = _regroup(files, 4, ctx.workdir)
   viol, n, states, results, wall = judge(files, ctx.workdir, obs, formulas)
   ctx.log("TLC judged %d histories / %d table states / %d formula results in %.1fs" % (n, states, results, wall))
   if n != len(todo):
